@@ -401,7 +401,7 @@ func ruleCallbackScratch(c *core.Ctx, rule string) {
 func init() {
 	register(&Property{
 		ID:    "C12",
-		Rules: []string{"C12-R1", "C12-R2", "C12-R3", "C12-R4", "C12-R5", "C12-R6", "C10-R3"},
+		Rules: []string{"C12-R1", "C12-R2", "C12-R3", "C12-R4", "C12-R5", "C12-R6", "C10-R3", "C06-R1"},
 		Explain: "Decides the absence of state that could leak from one day into the next: C12-R1 every Reporter implementation is streaming (Process writes to its sink and to nothing persistent; Flush adds no content) or accumulating (Process updates its own state and writes nothing), never both, and no Process writes a package-level variable or the shared recipe book; " +
 			"C12-R2 the per-record callback that feeds reporters writes every captured variable before reading it within one invocation; " +
 			"C12-R3 no pointer to a variable that outlives one record is stored into a record by the parser; C12-R4 every heading yields exactly one delivered record whatever follows it; " +
@@ -413,6 +413,7 @@ func init() {
 			ruleReporterDiscipline(c, "C12-R1")
 			ruleReporterSinks(c, "C12-R5")
 			ruleEmptinessTests(c, "C12-R6")
+			ruleC06R1(c) // days are independent: the interval filter keeps no state from one record to the next
 			ruleCallbackConsumers(c, map[string]bool{"C10-R3": true})
 			ruleCallbackScratch(c, "C12-R2")
 			analyseParserLoop(c, map[string]bool{"C12-R3": true, "C12-R4": true})
